@@ -29,7 +29,7 @@ UN = {'neg': (operator.neg, np.negative), 'abs': (abs, np.abs)}
 SCALARS = {'int': 3, 'float': 0.75, 'bool': True, 'npfloat': np.float64(1.25), 'npint': np.int64(2), 'zero': 0}
 
 
-def mkcell(rng, m, g, positive=False):
+def mkcell(rng, m, g, positive=False, scale=1.0):
     spec = None
     for _ in range(20):
         per = [k for k in range(g.nd) if gen.periodic_ok(g.cls, k) and rng.random() < 0.2]
@@ -42,7 +42,7 @@ def mkcell(rng, m, g, positive=False):
         vals = np.abs(vals) + 0.5
     if rng.random() < 0.3:
         vals = np.round(vals)
-    return pf.CellVariable(m, vals.copy(), BC)
+    return pf.CellVariable(m, vals.copy() * scale, BC)
 
 
 def snapshot_cell(v):
@@ -136,25 +136,29 @@ def run_case(case):
     kind = case['kind']
     cov = {'ops:' + kind: 1, 'cls:' + cls: 1}
     bad = []
-    key = '%s/%s/%s/%s/%s' % (cls, kind, case.get('op'), case.get('operand'), case.get('side'))
+    key = '%s/%s/%s/%s/%s/%s' % (cls, kind, case.get('op'), case.get('operand'), case.get('side'), 'small' if case.get('small') else '')
     sample = {'case': {k: v for k, v in case.items() if k != 'seed'}, 'grid': gen.describe_grid(meta, faces)}
     with np.errstate(all='ignore'):
         if kind == 'cell-bin':
             op = case['op']
             positive = op in ('pow', 'truediv')
-            a = mkcell(rng, m, g, positive)
+            # 'small': the same operands in nano units (values ~1e-9: positions in metres on a nanometre domain, trace concentrations)
+            sc_ = float(10 ** rng.uniform(-11, -8)) if case.get('small') else 1.0
+            if case.get('small'):
+                cov['small_unit_operands'] = 1
+            a = mkcell(rng, m, g, positive, scale=sc_)
             okind, side = case['operand'], case['side']
             if okind == 'var':
-                b = mkcell(rng, m, g, positive)
+                b = mkcell(rng, m, g, positive, scale=sc_)
                 bval = b.value.copy()
             elif okind == 'ndarray':
-                b = np.abs(rng.normal(0, 1, g.dims)) + 0.5
+                b = (np.abs(rng.normal(0, 1, g.dims)) + 0.5) * sc_
                 bval = b.copy()
             elif okind == 'size1':
-                b = np.array([1.5])
+                b = np.array([1.5]) * sc_
                 bval = b.copy()
             else:
-                b = SCALARS[okind]
+                b = SCALARS[okind] if not case.get('small') else SCALARS[okind] * sc_
                 bval = b
             aval = a.value.copy()
             snaps = [snapshot_cell(a)] + ([snapshot_cell(b)] if okind == 'var' else [digest(np.asarray(b))])
@@ -383,6 +387,9 @@ def plan(tier, seed):
                             continue      # python swaps comparisons (a < v -> v > a): covered on the right
                         cases.append({'kind': 'cell-bin', 'cls': cls, 'op': op, 'operand': okind, 'side': side, 'seed': [seed, 14, ci, i]})
                         i += 1
+                        if okind in ('var', 'ndarray', 'float', 'npfloat', 'int') and op not in ('pow',):
+                            cases.append({'kind': 'cell-bin', 'cls': cls, 'op': op, 'operand': okind, 'side': side, 'small': True, 'seed': [seed, 14, ci, i]})
+                            i += 1
                         if okind != 'ndarray' and not (side == 'left' and okind in ('npfloat', 'npint', 'size1')):
                             cases.append({'kind': 'face-bin', 'cls': cls, 'op': op, 'operand': okind, 'side': side, 'seed': [seed, 14, ci, i]})
                             i += 1
@@ -420,6 +427,8 @@ def floors(agg, tier):
     for st in ('consistent', 'ghosts-given', 'value-edited', 'bc-edited', 'from-solveMatrixPDE'):
         if agg['cov'].get('copy_state:' + st, 0) < 9:
             out.append('copy_state:%s < 9' % st)
+    if agg['cov'].get('small_unit_operands', 0) < 300:
+        out.append('small_unit_operands < 300')
     if agg['cov'].get('ghost_checks', 0) < 500:
         out.append('ghost_checks < 500')
     return out
